@@ -33,7 +33,7 @@ IU = 'utils.iter_utils'
 
 
 def run(ctx: Ctx):
-  for r in (r1, r2, r3, r4, r6, r10):
+  for r in (r1, r2, r3, r4, r6, r10, r11):
     ctx.guard(r)
   from mlmverif.props import c04
   from mlmverif.props._queue import model as qmodel
@@ -142,6 +142,56 @@ def r10(ctx: Ctx):
                    f' what the caller gets, but nothing registers `{a}` to be stopped with it'
                    f' (known link methods: {sorted(links) or "none"}): an early stop of the consumer leaves'
                    f' the threads filling `{a}` blocked in put() for ever', node=call)
+  ctx.floor(rule, 1, n)
+
+
+def r11(ctx: Ctx):
+  rule = 'R-C13-11'
+  ctx.rule(rule, '"for all ... numbers of input iterators": a function that stacks two queues on ONE'
+           ' thread pool it creates itself (R-C13-10\'s shape: feeders fill queue A, workers drain A'
+           ' into queue B) sizes that pool for everything that has to run at the same time: the'
+           ' `max_workers` it asks for mentions the number of feeders (`len(<inputs>)`) as well as'
+           ' the worker parallelism. The feeders are submitted first and block on A\'s bounded'
+           ' buffer; with a pool smaller than the number of inputs they occupy every thread, the'
+           ' workers never start and nothing is ever produced')
+  repo = ctx.repo
+  mi = repo.module(IU)
+  n = 0
+  for fi in mi.functions.values():
+    made = {x.targets[0].id for x in walk_no_nested(fi.node) if isinstance(x, ast.Assign) and len(x.targets) == 1
+            and isinstance(x.targets[0], ast.Name) and isinstance(x.value, ast.Call)
+            and unparse(x.value.func).split('.')[-1] in _QUEUE_MAKERS}
+    stacked = any(isinstance(c, ast.Call) and unparse(c.func).split('.')[-1] in _QUEUE_MAKERS and any(
+        isinstance(a, ast.Name) and a.id in made for a in list(c.args) + [k.value for k in c.keywords])
+                  for c in walk_no_nested(fi.node))
+    if not stacked:
+      continue
+    pools = [c for c in walk_no_nested(fi.node) if isinstance(c, ast.Call) and unparse(c.func).split('.')[-1] in (
+        '_get_thread_pool', 'ThreadPoolExecutor')]
+    if not pools:
+      continue
+    n += 1
+    # the inputs that need feeders: the iterable handed to the FIRST queue maker
+    feeders = set()
+    for x in walk_no_nested(fi.node):
+      if isinstance(x, ast.Assign) and isinstance(x.value, ast.Call) and unparse(x.value.func).split('.')[-1] in _QUEUE_MAKERS and (
+          isinstance(x.targets[0], ast.Name) and x.targets[0].id in made) and x.value.args:
+        feeders |= {y.id for y in ast.walk(x.value.args[0]) if isinstance(y, ast.Name)}
+    sized = False
+    for c in pools:
+      mw = kwarg(c, 'max_workers')
+      if mw is not None and any(isinstance(y, ast.Call) and unparse(y.func) == 'len' and y.args and isinstance(
+          y.args[0], ast.Name) and y.args[0].id in feeders for y in ast.walk(mw)):
+        sized = True
+    if sized:
+      ctx.ok(rule, fi, f'{fi.name}: own pool sized with the number of feeders', pools[0])
+    else:
+      ctx.fail(rule, fi, f'{fi.name}: the pool it creates has a thread per feeder plus the workers',
+               f'{fi.name} stacks a worker queue on an input queue fed from {sorted(feeders)} and creates the'
+               f' thread pool itself (`{unparse(pools[0])[:50]}`) without sizing it by the number of inputs: with'
+               ' more input iterators than pool threads the feeders (submitted first, blocked on the bounded'
+               ' input buffer) take every thread and the workers that would drain it never start — deadlock,'
+               ' nothing is produced', node=pools[0])
   ctx.floor(rule, 1, n)
 
 
@@ -461,6 +511,12 @@ from mlmverif.selfcheck import B, OK  # noqa: E402
 
 _F = 'utils/iter_utils.py'
 VARIANTS = [
+    B('revert-piter-pool-sized-for-feeders', 'utils/iter_utils.py',
+      '    thread_pool = _get_thread_pool(\n        thread_pool, max_workers=len(input_iterators) + max(max_parallism, 1)\n    )',
+      '    thread_pool = _get_thread_pool(thread_pool)', 'R-C13-11'),
+    B('piter-pool-sized-like-pmap', 'utils/iter_utils.py',
+      '    thread_pool = _get_thread_pool(\n        thread_pool, max_workers=len(input_iterators) + max(max_parallism, 1)\n    )',
+      '    thread_pool = _get_thread_pool(thread_pool, max_workers=1 + max_parallism)', 'R-C13-11'),
     B('revert-stacked-queues-linked', 'utils/iter_utils.py',
       '    result.stop_with(input_iterable)\n', '    pass\n', 'R-C13-10'),
     B('stop-link-not-honoured-by-maybe-stop', 'utils/iter_utils.py',
